@@ -8,6 +8,7 @@ import SfntV.Proofs.OtlGsub
 import SfntV.Proofs.OtlLookupList
 import SfntV.Proofs.OtlGpos
 import SfntV.Proofs.OtlFeatureList
+import SfntV.Proofs.OtlGdef
 
 namespace SfntV.Props.C08
 open SfntV SfntV.Otl
@@ -356,5 +357,30 @@ example : FL.Dom [⟨[107, 101, 114, 110], [0, 2]⟩, ⟨[108, 105, 103, 97], []
 example : FL.encode [⟨[107, 101, 114, 110], [0, 2]⟩, ⟨[108, 105, 103, 97], []⟩] =
     .ok ([0, 2, 107, 101, 114, 110, 0, 14, 108, 105, 103, 97, 0, 22] ++ wordsToBytes [0, 2, 0, 2, 0, 0]) := by
   decide
+
+/-! ## GDEF (`gdef.Table.Encode` / `gdef.Read`, model of the repaired code)
+
+`gcT`/`macT`: the GlyphClass / MarkAttachClass tables (`none` = nil map; `Gdef.ClassGood`: empty,
+or non-empty with 16-bit keys and classes); `sets`: the mark glyph sets (`none` = nil slice), each
+a valid sorted glyph list.  `Gdef.mkPart m` is what `Append`/`AppendLen` give for `m`.
+`Gdef.ClassMatch`: nil comes back as nil, a table comes back as the same function glyph → class. -/
+
+/-- Whenever `Encode` returns bytes, `Read` gives back the two class definition tables (as
+functions) and exactly the mark glyph sets; a table whose offsets do not fit 16 bits is refused. -/
+theorem C08_gdef_roundtrip (gcT macT : Option ClassDef.Tab) (sets : Option (List (List Nat)))
+    (hg : ∀ m, gcT = some m → Gdef.ClassGood m) (hm : ∀ m, macT = some m → Gdef.ClassGood m)
+    (hs : ∀ ss, sets = some ss → (∀ s ∈ ss, Cov.Valid s) ∧ ss.length < 65536 ∧
+      4 + 4 * ss.length + (ss.map fun s => 2 * (Cov.encodeW s).length).sum < 4294967296)
+    (b : Bytes) (hb : Gdef.encode (gcT.map Gdef.mkPart) (macT.map Gdef.mkPart) sets = .ok b) :
+    ∃ r, Gdef.read b = .ok r ∧ Gdef.ClassMatch gcT r.gc ∧ Gdef.ClassMatch macT r.mac ∧ r.sets = sets := by
+  cases sets with
+  | none => exact Gdef.roundtrip_noSets gcT macT hg hm b hb
+  | some ss =>
+    obtain ⟨h1, h2, h3⟩ := hs ss rfl
+    exact Gdef.roundtrip_sets gcT macT ss hg hm h1 h2 h3 b hb
+
+example : Gdef.encode (some (Gdef.mkPart [(5, 1), (6, 3)])) none (some [[7, 8]]) =
+    .ok (wordsToBytes [1, 2, 14, 0, 0, 0, 24] ++ wordsToBytes [1, 5, 2, 1, 3] ++
+      wordsToBytes [1, 1, 0, 8] ++ wordsToBytes [1, 2, 7, 8]) := by decide
 
 end SfntV.Props.C08
